@@ -505,7 +505,9 @@ class InterpolatableFunction(ABC):
         """
         x = np.asanyarray(x)
         if not bUseInterpolation or not self.hasInterpolation() or order > 2:
-            return helpers.derivative(self._evaluateDirectly, x, n=order)
+            return helpers.derivative(
+                self._evaluateDirectly, x, n=order, epsilon=epsilon, scale=scale
+            )
 
         # Use interpolated values whenever possible
         canInterpolateCondition, fxShape = self._findInterpolatablePoints(x)
